@@ -8,6 +8,7 @@ containers and adapters as `get_coord` / `set_coord` pairs, with the specialised
 import Geodesy.Model.Data.Coord
 import Geodesy.Model.Num.Angular
 import Geodesy.Lemmas.Real
+import Geodesy.Lemmas.Sexagesimal
 
 namespace Geodesy
 namespace C19
@@ -146,6 +147,31 @@ theorem degrees_roundtrip (x : ℝ) : Scalar.toDegrees (Scalar.toRadians x) = x 
   simp only [scalar_toRadians, scalar_toDegrees]
   have := Real.pi_ne_zero
   field_simp
+
+/-! ### ISO-6709 encodings and normalisation (real-number reading: "without loss beyond rounding"
+means exactly, over the reals) -/
+
+/-- **DDDMM.mmm is lossless for every angle** (decimal degrees → DDDMM.mmm → decimal degrees),
+including angles with zero degrees and a negative sign -/
+theorem iso_dm_lossless (x : ℝ) (hx : |x| < 42949672) : isoDmToDd (ddToIsoDm x) = x :=
+  Sexagesimal.iso_dm_roundtrip x hx
+
+/-- **DDDMMSS.sss is lossless for every angle** -/
+theorem iso_dms_lossless (x : ℝ) (hx : |x| < 429496) : isoDmsToDd (ddToIsoDms x) = x :=
+  Sexagesimal.iso_dms_roundtrip x hx
+
+/-- **`normalize_symmetric` returns an equivalent angle in `[−π, π)`** -/
+theorem normalize_symmetric_equivalent_in_range (x : ℝ) :
+    ∃ k : ℤ, normalizeSymmetric x = x + 2 * Real.pi * k ∧ -Real.pi ≤ normalizeSymmetric x ∧ normalizeSymmetric x < Real.pi :=
+  Sexagesimal.normalize_symmetric_spec x
+
+/-- **`normalize_positive` returns an equivalent angle in `[0, 2π)`** -/
+theorem normalize_positive_equivalent_in_range (x : ℝ) :
+    ∃ k : ℤ, normalizePositive x = x + 2 * Real.pi * k ∧ 0 ≤ normalizePositive x ∧ normalizePositive x < 2 * Real.pi :=
+  Sexagesimal.normalize_positive_spec x
+
+/-- the range hypotheses are met by the angles the property quantifies over (`[-720, 720]`), e.g. `-0.51°` -/
+example : |(-0.51 : ℝ)| < 429496 := by rw [abs_of_neg (by norm_num)]; norm_num
 
 /-! ### non-vacuity -/
 
